@@ -146,11 +146,11 @@ def r07_2_4(prog: Program, rep: Report):
         ok_res = False
         if res is not None:
             for p, r in P.returns(P.paths_of(prog, res)):
-                stores = [e for e in p.events if e[0] == "setattr" and e[1] == C.SELF and e[2] == "_resolved"]
+                stores = [e for e in p.events if e[0] == "setattr" and e[1] == C.SELF]  # (whatever the latch attribute is called)
                 for e in stores:
                     evaluated_t = ("call", ("ref", "typelib.py.refs.evaluate"), (C.sattr("t"),), ())
                     if T.is_call_to(e[3], factory) and (e[3][2] in ((C.sattr("t"),), (evaluated_t,)) or dict(e[3][3]).get("t") in (C.sattr("t"), evaluated_t)):
-                        if r == e[3] or r == C.sattr("_resolved"):
+                        if r == e[3] or r == C.sattr(e[2]):
                             ok_res = True
         rep.check(ok_res, "R07.4", proxy.qualname, proxy.loc, f"the proxy resolves through {factory.rsplit('.', 1)[-1]}(self.t), stores and returns it", f"the proxy does not resolve through the same-direction factory {factory.rsplit('.', 1)[-1]}(self.t)", detail="resolve")
         ok_call = call is not None and all(r == ("call", C.sattr("resolved"), (("param", "val"),), ()) for p, r in P.returns(P.paths_of(prog, call))) and bool(P.returns(P.paths_of(prog, call)))
